@@ -33,7 +33,7 @@ type Repo struct {
 func loadRepo(dir string, overlay map[string][]byte) (*Repo, error) {
 	cfg := &packages.Config{Mode: packages.LoadAllSyntax, Dir: dir, BuildFlags: []string{"-tags=verif"}, Overlay: overlay,
 		Env: append(os.Environ(), "GOTOOLCHAIN=auto", "GOFLAGS=-mod=mod", "GOPROXY=off")}
-	pkgs, err := packages.Load(cfg, "./internal/...")
+	pkgs, err := packages.Load(cfg, "./internal/...", "./cmd/...")
 	if err != nil {
 		return nil, err
 	}
@@ -57,7 +57,7 @@ func loadRepo(dir string, overlay map[string][]byte) (*Repo, error) {
 		}
 	})
 	for _, sp := range spkgs {
-		if sp == nil || !strings.HasPrefix(sp.Pkg.Path(), "github.com/juev/hledger-lsp/internal/") {
+		if sp == nil || !(strings.HasPrefix(sp.Pkg.Path(), "github.com/juev/hledger-lsp/internal/") || strings.HasPrefix(sp.Pkg.Path(), "github.com/juev/hledger-lsp/cmd/")) {
 			continue
 		}
 		r.pkgs[sp.Pkg.Name()] = sp
